@@ -9,6 +9,7 @@ import Driver.InitSpec
 import Driver.BeaconSuite
 import Driver.NodeSuite
 import Driver.NodeSpec
+import Driver.ConfigSuite
 /-
   vpmodel: reads lines `op<TAB>implementation observation`, prints `model observation<TAB>spec verdict`.
 -/
@@ -30,6 +31,9 @@ def stepLine (st : DState) (line : String) : DState × String :=
   let toks := (op.splitOn " ").filter (· ≠ "")
   if toks = ["reset"] then (({} : DState), "ok\t-") else
   match pureStep toks implObs with
+  | some (m, s) => (st, m ++ "\t" ++ s)
+  | none =>
+  match configStep toks implObs with
   | some (m, s) => (st, m ++ "\t" ++ s)
   | none =>
   match beaconStep toks implObs with
